@@ -46,6 +46,11 @@ def run_check(pid, repo, tier, seed=1, timeout=600):
             out, rc = r.stdout, r.returncode
         except subprocess.TimeoutExpired as e:
             out, rc = (e.stdout or "") + "\nTIMEOUT", 99
+        keep = os.environ.get("MUTATE_KEEP_REPLAY")
+        if keep and (work / "replay" / pid).is_dir():
+            Path(keep).mkdir(parents=True, exist_ok=True)
+            for f in (work / "replay" / pid).glob("*.json"):
+                shutil.copy(f, Path(keep) / f.name)
     finally:
         shutil.rmtree(work, ignore_errors=True)
     viol = [l for l in out.splitlines() if l.startswith("VIOLATION") or l.startswith("violation in")]
